@@ -146,6 +146,8 @@ def _filter_one(args):
         was = inp
         if md:
             status, inp = md["status"], md["inPlay"]
+            # the scheduled start as published by the latest definition (it can be moved)
+            mt = int(_dt.datetime.strptime(md["marketTime"], "%Y-%m-%dT%H:%M:%S.%fZ").replace(tzinfo=_dt.timezone.utc).timestamp() * 1000)
         if inp and not was:
             t_ip = pt
         ok = True
@@ -366,6 +368,8 @@ def run(tier):
     seqs.append([(3000, "Q"), (3000, "SUS"), (3000, "IP"), (1000, "Q"), (1000, "Q"), (1000, "Q"), (3000, "CL")])
     seqs.append([(1000, "IP"), (500, "Q"), (600, "Q"), (3000, "Q")])
     seqs.append([(4000, "Q"), (999, "Q"), (1, "Q"), (1, "Q"), (5000, "IP"), (2000, "Q"), (1, "Q")])
+    # the scheduled start is delayed, then brought forward, by plain definition updates
+    seqs.append([(1000, "Q"), (1000, ["MT", 6]), (1000, "Q"), (1000, "Q"), (1000, ["MT", -9]), (1000, "Q"), (1000, "Q"), (3000, "IP"), (1000, "Q")])
     fj = []
     for seq in seqs:
         for inplay in (None, True, False):
